@@ -309,6 +309,19 @@ func (p *Program) resolveType(text string, pkgPath string) (types.Type, error) {
 	return obj.Type(), nil
 }
 
+// canonFuncName expands a short package name in "pkg.Func" / "(*pkg.T).M".
+func (p *Program) canonFuncName(name string) string {
+	if _, ok := p.Funcs[name]; ok {
+		return name
+	}
+	for full := range p.Funcs {
+		if shortFn(full) == name {
+			return full
+		}
+	}
+	return name
+}
+
 // ghostField looks up a ghost field on a type key.
 func (p *Program) ghostField(owner, name string) *GhostField {
 	return p.Ghosts[owner+"."+name]
